@@ -285,7 +285,7 @@ impl<'a> ListGen<'a> {
         *r.pick(&self.tab.zero) as u64
     }
     /// One group of location list entries with exactly one data-carrying entry.
-    fn loc_group(&self, r: &mut Rng, dead: bool, first: bool, e: ExprSpec) -> LocGroup {
+    fn loc_group(&self, r: &mut Rng, dead: bool, first: bool, e: ExprSpec, force: Option<u64>) -> LocGroup {
         let mask = self.enc.addr_mask();
         if !dead {
             match r.below(if first { 9 } else { 8 }) {
@@ -310,7 +310,7 @@ impl<'a> ListGen<'a> {
                 }
             }
         } else {
-            match r.below(8) {
+            match force.unwrap_or_else(|| r.below(8)) {
                 0 | 1 => (Lle::StartxLength, vec![LocEnt::StartxLength(self.tomb(r), 4 + r.below(0x40), e)], Some("tombstone")),
                 2 => (Lle::StartxLength, vec![LocEnt::StartxLength(self.live(r), 0, e)], Some("zero_length")),
                 3 => {
@@ -540,7 +540,11 @@ fn is_container(tag: gimli::DwTag) -> bool {
     matches!(tag, c::DW_TAG_subprogram | c::DW_TAG_structure_type | c::DW_TAG_namespace | c::DW_TAG_lexical_block)
 }
 
-pub(super) fn gen_case(r: &mut Rng, enc: Enc, target_n: usize, dead_refs: bool) -> Case {
+/// `script = Some(kind)`: the minimal witness of the dead-entry finding instead of a random
+/// pair: two top-level variables, `u0e0` has a DW_AT_location list whose only entry is the
+/// dead entry of the given kind and holds `DW_OP_call4 -> u0e1`.
+pub(super) fn gen_case(r: &mut Rng, enc: Enc, target_n: usize, dead_refs: bool, script: Option<u64>) -> Case {
+    let target_n = if script.is_some() { 2 } else { target_n };
     let le = enc.le;
     let word = enc.word() as usize;
     let hdr_addr = if enc.fmt64 { 16 } else { 8 };
@@ -550,12 +554,14 @@ pub(super) fn gen_case(r: &mut Rng, enc: Enc, target_n: usize, dead_refs: bool) 
     let low_pc = tab.slots[low_idx as usize];
 
     // ---- tree: base types first among the root's children
-    let nbase = if target_n >= 5 { 1 + r.usize(2) } else { r.usize(2) };
+    let nbase = if script.is_some() { 0 } else if target_n >= 5 { 1 + r.usize(2) } else { r.usize(2) };
     let mut tn: Vec<TreeNode> = vec![];
     let mut open: Vec<(Option<usize>, gimli::DwTag)> = vec![(None, c::DW_TAG_compile_unit)];
     for k in 0..target_n {
         let (tag, parent) = if k < nbase {
             (c::DW_TAG_base_type, None)
+        } else if script.is_some() {
+            (c::DW_TAG_variable, None)
         } else {
             let (pnode, ptag) = *r.pick(&open);
             let top = pnode.is_none();
@@ -634,7 +640,7 @@ pub(super) fn gen_case(r: &mut Rng, enc: Enc, target_n: usize, dead_refs: bool) 
             tn[k].attrs = attrs;
             continue;
         }
-        if matches!(tag, c::DW_TAG_subprogram | c::DW_TAG_variable) && r.chance(1, 2) {
+        if script.is_none() && matches!(tag, c::DW_TAG_subprogram | c::DW_TAG_variable) && r.chance(1, 2) {
             let idx = strings.len();
             strings.push(format!("_Z{}link", k).into_bytes());
             attrs.push(AttrSpec { at: c::DW_AT_linkage_name, form: c::DW_FORM_strx1, val: AttrVal::Bytes(vec![idx as u8]) });
@@ -666,10 +672,11 @@ pub(super) fn gen_case(r: &mut Rng, enc: Enc, target_n: usize, dead_refs: bool) 
             }
         }
         // reference edges
-        let nedges = match r.below(6) {
-            0 => 0,
-            1 | 2 | 3 => 1,
-            4 => 2,
+        let nedges = match (script, r.below(6)) {
+            (Some(_), _) => (k == 0) as usize,
+            (_, 0) => 0,
+            (_, 1 | 2 | 3) => 1,
+            (_, 4) => 2,
             _ => 3,
         };
         let mut ref_attrs = vec![c::DW_AT_type, c::DW_AT_specification, c::DW_AT_abstract_origin, c::DW_AT_import, c::DW_AT_containing_type];
@@ -681,8 +688,14 @@ pub(super) fn gen_case(r: &mut Rng, enc: Enc, target_n: usize, dead_refs: bool) 
                 kinds.push(EdgeKind::ExprTyped);
                 kinds.push(EdgeKind::ExprTyped);
             }
-            let kind = *r.pick(&kinds);
-            let to = if kind == EdgeKind::ExprTyped { *r.pick(&base_nodes) } else { r.usize(n) };
+            let kind = if script.is_some() { EdgeKind::ExprCall } else { *r.pick(&kinds) };
+            let to = if script.is_some() {
+                1
+            } else if kind == EdgeKind::ExprTyped {
+                *r.pick(&base_nodes)
+            } else {
+                r.usize(n)
+            };
             if kind == EdgeKind::AttrUnit {
                 let Some(at) = ref_attrs.pop() else { continue };
                 attrs.push(AttrSpec { at, form: c::DW_FORM_ref4, val: AttrVal::Ref4(to) });
@@ -696,7 +709,7 @@ pub(super) fn gen_case(r: &mut Rng, enc: Enc, target_n: usize, dead_refs: bool) 
                 _ => OpSpec::Typed(r.below(5) as u8, to),
             };
             let x = ExprSpec { pre: r.bool(), post: r.bool(), op };
-            if list_edges.len() < 2 && r.chance(3, 5) {
+            if script.is_some() || (list_edges.len() < 2 && r.chance(3, 5)) {
                 list_edges.push((edges.len(), x));
                 edges.push(Edge { from: k, to, kind, in_loclist: true });
                 meta.push(EdgeMeta { lle: None, dead: None, list_form: None });
@@ -714,11 +727,11 @@ pub(super) fn gen_case(r: &mut Rng, enc: Enc, target_n: usize, dead_refs: bool) 
             let mut groups: Vec<(LocGroup, bool)> = vec![];
             let mut unit_base_first: Option<LocGroup> = None;
             for (ei, x) in list_edges.drain(..) {
-                let dead = dead_refs && r.chance(1, 2);
+                let dead = script.is_some() || (dead_refs && r.chance(1, 2));
                 let mut g = if r.chance(1, 8) && !dead {
                     (Lle::DefaultLocation, vec![LocEnt::Default(x)], None)
                 } else {
-                    lg.loc_group(r, dead, unit_base_first.is_none(), x)
+                    lg.loc_group(r, dead, unit_base_first.is_none(), x, script)
                 };
                 meta[ei] = EdgeMeta { lle: Some(g.0), dead: g.2, list_form: Some(form_name) };
                 if g.2.is_some() {
@@ -730,10 +743,10 @@ pub(super) fn gen_case(r: &mut Rng, enc: Enc, target_n: usize, dead_refs: bool) 
                     groups.push((g, true));
                 }
             }
-            for _ in 0..r.usize(3) {
+            for _ in 0..(if script.is_some() { 0 } else { r.usize(3) }) {
                 let dead = r.chance(1, 2);
                 let plain = ExprSpec::plain(r);
-                let g = lg.loc_group(r, dead, false, plain);
+                let g = lg.loc_group(r, dead, false, plain, None);
                 groups.push((g, false));
             }
             // default_location entries may stand anywhere; keep at most one
@@ -1311,7 +1324,63 @@ fn pick_enc(r: &mut Rng) -> Enc {
     Enc::new(r.bool(), r.chance(1, 3), 5, *r.pick(&[2u8, 4, 4, 8, 8]))
 }
 
+/// Non-split twin of the dead-entry finding, through the plain `convert_with_filter` path of
+/// `c19.rs`: one unit built with `gimli::write`, `u0e0` has a DW_AT_location list whose only
+/// entry (tombstone start / empty range) holds `DW_OP_call4 -> u0e1`.
+fn nonsplit_dead_witness(enc: Enc, variant: u64) -> Option<Forest> {
+    use gimli::write::{Address, AttributeValue, Location};
+    let mut dw = write::Dwarf::new();
+    let mut unit = write::Unit::new(enc.encoding(), write::LineProgram::none());
+    let root = unit.root();
+    unit.get_mut(root).set(c::DW_AT_name, AttributeValue::String(b"root0".to_vec()));
+    let e0 = unit.add(root, c::DW_TAG_variable);
+    let e1 = unit.add(root, c::DW_TAG_variable);
+    unit.get_mut(e0).set(c::DW_AT_name, AttributeValue::String(b"u0e0".to_vec()));
+    unit.get_mut(e1).set(c::DW_AT_name, AttributeValue::String(b"u0e1".to_vec()));
+    let mut e = write::Expression::new();
+    e.op_call(e1);
+    let loc = match variant {
+        0 => Location::StartLength { begin: Address::Constant(enc.addr_mask()), length: 4, data: e },
+        _ => Location::StartEnd { begin: Address::Constant(0x30), end: Address::Constant(0x20), data: e },
+    };
+    let lid = unit.locations.add(write::LocationList(vec![loc]));
+    unit.get_mut(e0).set(c::DW_AT_location, AttributeValue::LocationListRef(lid));
+    dw.units.add(unit);
+    let secs = write_dwarf(&mut dw, enc.endian()).ok()?;
+    let nodes = vec![
+        Node { unit: 0, k: 0, tag: c::DW_TAG_variable, parent: None, name: "u0e0".into() },
+        Node { unit: 0, k: 1, tag: c::DW_TAG_variable, parent: None, name: "u0e1".into() },
+    ];
+    Some(Forest { enc, nunits: 1, nodes, edges: vec![Edge { from: 0, to: 1, kind: EdgeKind::ExprCall, in_loclist: true }], secs })
+}
+
 pub fn run(ctx: &mut Ctx) {
+    // minimal witnesses of the dead-entry finding: split (kinds 0..8 of the dead entries) and non-split
+    for k in 0..10u64 {
+        if !ctx.want_hashed("split.known.witness", k) {
+            continue;
+        }
+        let mut r = ctx.rng("split.known.witness", k);
+        let enc = Enc::new(true, false, 5, 8);
+        let key = "known.filtered.err.conv.InvalidUnitRef";
+        if k < 8 {
+            let case = gen_case(&mut r, enc, 2, true, Some(k));
+            let skey = format!("split.{}", key);
+            let before = ctx.obs.get(&skey).copied().unwrap_or(0);
+            check_case(ctx, &case, &mut r, SKIP_DEAD_ENTRY_REFS);
+            let after = ctx.obs.get(&skey).copied().unwrap_or(0);
+            let what = case.meta.first().map(|m| format!("{}.{}", m.lle.map(|l| l.name()).unwrap_or("?"), m.dead.unwrap_or("live"))).unwrap_or_default();
+            ctx.obs(&format!("split.known.witness.{}.{}", what, if after > before { "InvalidUnitRef" } else { "ok" }));
+            if after > before {
+                ctx.sample("split.known.witness", || json!({"dead_entry": what, "required": ["u0e0"], "expected_output": ["u0e0", "u0e1"], "observed": "FilterUnitSection::new_split + convert_split_with_filter + ConvertUnit::convert fails with ConvertError::InvalidUnitRef; convert_split of the same pair succeeds", "skeleton_file": case.main.json(), "dwo_file": case.dwo.json()}));
+            }
+        } else if let Some(f) = nonsplit_dead_witness(enc, k - 8) {
+            let before = ctx.obs.get(key).copied().unwrap_or(0);
+            super::check_forest(ctx, &f, &mut r, SKIP_DEAD_ENTRY_REFS);
+            let after = ctx.obs.get(key).copied().unwrap_or(0);
+            ctx.obs(&format!("split.known.witness.nonsplit.{}.{}", if k == 8 { "start_length.tombstone" } else { "start_end.inverted" }, if after > before { "InvalidUnitRef" } else { "ok" }));
+        }
+    }
     // small pairs: every subset of required entries
     let n_small = ctx.size(36, 400, 3);
     for i in 0..n_small {
@@ -1322,7 +1391,7 @@ pub fn run(ctx: &mut Ctx) {
         let enc = pick_enc(&mut r);
         let target = 4 + r.usize(7); // 4..=10
         let dead_refs = !SKIP_DEAD_ENTRY_REFS && r.chance(1, 3);
-        let case = gen_case(&mut r, enc, target, dead_refs);
+        let case = gen_case(&mut r, enc, target, dead_refs, None);
         check_case(ctx, &case, &mut r, false);
     }
     // larger pairs: sampled subsets
@@ -1335,7 +1404,7 @@ pub fn run(ctx: &mut Ctx) {
         let enc = pick_enc(&mut r);
         let target = 11 + r.usize(2); // 11..=12
         let dead_refs = !SKIP_DEAD_ENTRY_REFS && r.chance(1, 3);
-        let case = gen_case(&mut r, enc, target, dead_refs);
+        let case = gen_case(&mut r, enc, target, dead_refs, None);
         check_case(ctx, &case, &mut r, false);
     }
     // references carried by dead list entries (observations only while skipped)
@@ -1347,7 +1416,7 @@ pub fn run(ctx: &mut Ctx) {
         let mut r = ctx.rng("split.known.dead_refs", i);
         let enc = pick_enc(&mut r);
         let target = 4 + r.usize(4);
-        let case = gen_case(&mut r, enc, target, true);
+        let case = gen_case(&mut r, enc, target, true, None);
         if case.has_dead_refs {
             ctx.obs("split.known.dead_refs.cases");
         }
